@@ -791,6 +791,19 @@ func vfMetaScript(rng *vfRand, kind int, idx int) []string {
 		} else {
 			s = append(s, "force topic.delete.afterNotify", "deletetopic t2", "idle", "kill", "restart", "idle")
 		}
+	case 5: // SIGKILL inside the persists of a deletion: the Notify one (k = 1 or 2) and the post-unlink one (F6 path)
+		pt := vfMetaPoints[idx%5] // the five meta.persist.* points
+		k := 1 + (idx/5)%2
+		s = append(s, "createtopic t1", "createchan t1 c0", "createchan t1 c1", "createtopic t2", "createchan t2 c0", "idle")
+		s = append(s, fmt.Sprintf("arm %s %d", pt, k))
+		if (idx/10)%2 == 0 {
+			s = append(s, "deletechan t1 c0", "deletechan t1 c1")
+		} else {
+			s = append(s, "deletetopic t2", "deletetopic t1")
+		}
+		s = append(s, "idle", "kill", "restart", "idle")
+		s = append(s, sh.churn(rng, 2)...)
+		s = append(s, "idle")
 	case 4: // two concurrent pause/unpause requests, the first parked between its snapshot and its write
 		s = append(s, "createtopic t1", "createchan t1 c0", "createtopic t2", "createchan t2 c1", "idle")
 		variants := []string{
@@ -848,8 +861,9 @@ func TestVerifMetaCorr(t *testing.T) {
 	} else {
 		rng := vfNewRand(0xC06)
 		k0 := int(rng.Next() % 9)
+		k5 := int(rng.Next() % 20)
 		for i := 0; i < n; i++ {
-			kind := []int{0, 0, 0, 1, 1, 2, 3, 4}[i%8]
+			kind := []int{0, 0, 5, 1, 1, 2, 3, 4}[i%8]
 			if os.Getenv("VERIF_META_KIND") != "" {
 				kind = vfEnvInt("VERIF_META_KIND", 0)
 			}
@@ -860,6 +874,10 @@ func TestVerifMetaCorr(t *testing.T) {
 			}
 			if kind == 4 {
 				idx = i / 8
+			}
+			if kind == 5 {
+				idx = k5
+				k5++
 			}
 			scripts = append(scripts, vfMetaScript(rng, kind, idx))
 		}
@@ -919,4 +937,95 @@ func TestVerifMetaCorr(t *testing.T) {
 	if fails == 0 {
 		fmt.Printf("ORACLE-OK scripts=%d lines=%d observer_reads=%d distinct_file_contents=%d\n", len(scripts), out.N, reads, contents)
 	}
+}
+
+// ---------------------------------------------------------------------------------------------
+// Observation (not a violation): the persisted document is a cut per topic, not a global cut
+// (Props.C06.snapshot_cut and the example `cutSchedule`). Every live state has chans(cutb) ⊆ chans(cuta) because
+// each channel is created in cuta first; GetMetadata locks one topic at a time, so a document can list a channel in
+// cutb that it does not list in cuta. The next persist heals it.
+func TestVerifMetaCutObservation(t *testing.T) {
+	if os.Getenv("VERIF_META_DAEMON") == "1" {
+		t.Skip()
+	}
+	opts := NewOptions()
+	opts.Logger = log.New(io.Discard, "", 0)
+	opts.DataPath = t.TempDir()
+	opts.TCPAddress = "127.0.0.1:0"
+	opts.HTTPAddress = "127.0.0.1:0"
+	n, err := New(opts)
+	if err != nil {
+		t.Fatal(err)
+	}
+	go n.Main()
+	defer n.Exit()
+	for i := 0; i < vfEnvInt("VERIF_CUT_FILLER", 120); i++ { // filler topics make one GetMetadata pass longer
+		n.GetTopic(fmt.Sprintf("filler%d", i))
+	}
+	a, b := n.GetTopic("cuta"), n.GetTopic("cutb")
+	stop := make(chan struct{})
+	var persists, nonCut int64
+	var example atomic.Value
+	var wg sync.WaitGroup
+	wg.Add(1)
+	go func() {
+		defer wg.Done()
+		last := ""
+		for {
+			select {
+			case <-stop:
+				return
+			default:
+			}
+			// read the document the daemon's own PersistMetadata calls (one per channel creation) wrote
+			raw, err := os.ReadFile(filepath.Join(opts.DataPath, "nsqd.dat"))
+			if err != nil || string(raw) == last {
+				runtime.Gosched()
+				continue
+			}
+			last = string(raw)
+			var m Metadata
+			if json.Unmarshal(raw, &m) != nil {
+				continue
+			}
+			atomic.AddInt64(&persists, 1)
+			var ca, cb map[string]bool
+			for _, tm := range m.Topics {
+				set := map[string]bool{}
+				for _, c := range tm.Channels {
+					set[c.Name] = true
+				}
+				if tm.Name == "cuta" {
+					ca = set
+				}
+				if tm.Name == "cutb" {
+					cb = set
+				}
+			}
+			for c := range cb {
+				if !ca[c] {
+					if atomic.AddInt64(&nonCut, 1) == 1 {
+						example.Store(fmt.Sprintf("document lists cutb/%s but not cuta/%s (cuta has %d channels, cutb %d)", c, c, len(ca), len(cb)))
+					}
+					break
+				}
+			}
+		}
+	}()
+	deadline := time.Now().Add(time.Duration(vfEnvInt("VERIF_CUT_MS", 1500)) * time.Millisecond)
+	created := 0
+	for i := 0; time.Now().Before(deadline) && i < vfEnvInt("VERIF_CUT_PAIRS", 600); i++ {
+		name := fmt.Sprintf("k%d", i)
+		a.GetChannel(name)
+		b.GetChannel(name)
+		created++
+	}
+	for i := 0; i < 1000 && !vfMetaIdle(); i++ {
+		time.Sleep(5 * time.Millisecond)
+	}
+	close(stop)
+	wg.Wait()
+	ex, _ := example.Load().(string)
+	fmt.Printf("OBSERVATION global-cut snapshots=%d channel_pairs=%d non_global_cut_snapshots=%d %s\n",
+		atomic.LoadInt64(&persists), created, atomic.LoadInt64(&nonCut), ex)
 }
